@@ -186,9 +186,10 @@ func (sw *SprayAndWait) ReportFailure(bp BundleDescriptor, sender cla.Convergenc
 		"bad_cla": sender,
 	}).Debug("Transmission failure")
 
-	sw.dataMutex.RLock()
+	// read-modify-write under one lock: failures of one forwarding pass are reported concurrently
+	sw.dataMutex.Lock()
+	defer sw.dataMutex.Unlock()
 	metadata, ok := sw.bundleData[bp.Id]
-	sw.dataMutex.RUnlock()
 	if !ok {
 		log.WithFields(log.Fields{
 			"bundle": bp.ID(),
@@ -206,9 +207,7 @@ func (sw *SprayAndWait) ReportFailure(bp BundleDescriptor, sender cla.Convergenc
 		}
 	}
 
-	sw.dataMutex.Lock()
 	sw.bundleData[bp.Id] = metadata
-	sw.dataMutex.Unlock()
 }
 
 func (_ *SprayAndWait) ReportPeerAppeared(_ cla.Convergence) {}
@@ -395,9 +394,10 @@ func (bs *BinarySpray) ReportFailure(bp BundleDescriptor, sender cla.Convergence
 
 	binarySprayBlock := metadataBlock.Value.(*bpv7.BinarySprayBlock)
 
-	bs.dataMutex.RLock()
+	// read-modify-write under one lock: failures of one forwarding pass are reported concurrently
+	bs.dataMutex.Lock()
+	defer bs.dataMutex.Unlock()
 	metadata, ok := bs.bundleData[bp.Id]
-	bs.dataMutex.RUnlock()
 	if !ok {
 		log.WithFields(log.Fields{
 			"bundle":  bp.ID(),
@@ -415,9 +415,7 @@ func (bs *BinarySpray) ReportFailure(bp BundleDescriptor, sender cla.Convergence
 		}
 	}
 
-	bs.dataMutex.Lock()
 	bs.bundleData[bp.Id] = metadata
-	bs.dataMutex.Unlock()
 }
 
 func (_ *BinarySpray) ReportPeerAppeared(_ cla.Convergence) {}
